@@ -51,6 +51,8 @@ def _no_raise_ops(ev: Ev) -> bool:
         res = ev.x.get("callee")
         if res is not None and res.how == "stdlib" and any(t.split(".")[0] in ("Lock", "RLock", "deque") for t in res.tags):
             return False
+        if res is not None and res.how == "stdlib" and res.tags == ["collections.deque"] and not ev.term.args:
+            return False  # creating an empty deque
     return True
 
 
